@@ -10,7 +10,9 @@
 (*     reported with the units its script consumed.                         *)
 (* A redeemer is  [purpose, kind, lang, script, datum]  with                 *)
 (*   kind   : "cheap" | "costly" | "picky" | "fail"   (what the script does) *)
-(*   script : "witness" | "reference" | "missing"     (where its code is)    *)
+(*   script : "witness" | "reference" | "inputref" | "missing"               *)
+(*            (where its code is: in the witness set, on the output of a      *)
+(*             reference input, on the output of an input that is SPENT)      *)
 (*   datum  : "inline" | "witness" | "missing" | "none"                      *)
 (* Costs are abstract; only their order relations matter (the harness maps   *)
 (* budget kinds to measured costs).                                          *)
